@@ -188,6 +188,17 @@ func TestSim(t *testing.T) {
 			}
 			t0 := time.Now()
 			o, scn := runGuardedGen(t, p, gen, tape)
+			if RaceBuild && job.Prop != "C07" {
+				// every property's runs are judged by the race detector in the
+				// race build (C07 collects its reports itself)
+				for _, v := range newRaceReports(job.Prop) {
+					if strings.HasSuffix(v.Class, "/harness-race") {
+						o.Infra = "race report without a library frame (harness bug):\n" + v.Detail
+					} else {
+						o.Violations = append(o.Violations, v)
+					}
+				}
+			}
 			rec := &Record{Prop: job.Prop, Seed: idx, Enum: enum, Scenario: scn, Outcome: o, WallMs: float64(time.Since(t0).Microseconds()) / 1000}
 			sum.Evaluations++
 			if job.Hashes {
